@@ -139,6 +139,28 @@ package api
 //@   hyp bal == real(sin - sout) && abs(bal) <= B
 //@   goal abs(real(sout - sin)) <= B
 //@
+//@ // ---- C12, regular distribution: what the contracts decide is the cycle structure (the underlying rate is
+//@ // evaluated exactly once per cycle of tickSteps calls, the values are non-negative) and the independence of
+//@ // cycles: every cycle starts from an empty accumulator, so the sum of a cycle depends on that cycle's rate and
+//@ // tickSteps only. The per-cycle exactness of the float accumulation itself is outside the float model (see
+//@ // DESIGN.md) and is covered by the bounded check registered below, not by proof.
+//@ func withRegularDistribution$1
+//@   props C12 C14
+//@   fp-inexact
+//@   bounded {C12} regular_distribution : the real closure, every cycle length N in 2..300 (thorough: 2..600) x every rate in 0..1000 (thorough: 0..3000) plus ten rates up to 10^9, two consecutive cycles each: per cycle the values are non-negative, sum exactly to the cycle's rate, differ by at most 1, one evaluation of the underlying rate
+//@   dyncall rateFn : nonnegRate
+//@   inv rateFn != nil
+//@   inv tickSteps >= 1 && 0 <= remainingSteps && remainingSteps < tickSteps
+//@   inv G12claim == 1 ==> rate >= 0
+//@   ghost after call dyn:rateFn #0 : G12R = ret0 ; G12evals = G12evals + 1
+//@   assert before call math.Ceil : {C12} [cycle-starts-empty] (G12claim == 1 && remainingSteps == tickSteps && rate <= 4503599627370496) ==> abs(arg0 - real(rate) / real(tickSteps) * 10000000.0) <= (real(rate) / real(tickSteps) + 1.0) / 1048576.0
+//@   modifies remainingSteps, rate, accRate, G12R, G12evals
+//@   ensures [nonneg] G12claim == 1 ==> result >= 0
+//@   ensures [cycle] remainingSteps == (old(remainingSteps) == 0 ? tickSteps : old(remainingSteps)) - 1
+//@   ensures [once] G12evals == old(G12evals) + (old(remainingSteps) == 0 ? 1 : 0)
+//@   ensures [samecycle] old(remainingSteps) != 0 ==> rate == old(rate)
+//@   ensures [latched] old(remainingSteps) == 0 ==> rate == G12R
+//@
 //@ // ---- C14 / C12: distribution selection
 //@ func withRegularDistribution
 //@   props C12 C14
